@@ -65,7 +65,7 @@ def subminute(v):
     if isinstance(v, dict):
         if v.get('v') == 'tok' and v.get('k') in ('datetime', 'time'):
             tz = v['x'][-1]
-            return tz is not None and 0 < tz < 60
+            return isinstance(tz, int) and 0 < tz < 60
         return any(subminute(x) for x in v.values())
     if isinstance(v, list):
         return any(subminute(x) for x in v)
